@@ -325,7 +325,9 @@ func (stmt *Statement) BuildCondition(query interface{}, args ...interface{}) []
 		case clause.Expression:
 			conds = append(conds, v)
 		case *DB:
-			v.executeScopes()
+			if len(v.Statement.scopes) > 0 {
+				v = v.Session(&Session{}).getInstance().executeScopes()
+			}
 
 			if cs, ok := v.Statement.Clauses["WHERE"]; ok {
 				if where, ok := cs.Expression.(clause.Where); ok {
